@@ -189,6 +189,10 @@ func NewHTTPClient(options ...HTTPClientOptionF) (*HTTPClient, error) {
 			return nil, err
 		}
 	}
+	// an option may have replaced the HTTP client: the redirect handler that
+	// updates the topology has to be installed on the one that is actually used
+	client.httpClient.CheckRedirect = newCheckRedirect(client)
+
 	// configure retrier
 	_ = client.setRetrier(client.maxRetries)
 
